@@ -141,6 +141,25 @@ CHECKS.update({
         ref="§4 C20"),
 })
 
+CHECKS.update({
+    "C08": dict(
+        text="PARTIAL (runtime modelled). Proved for the queue protocol as a transition system, any number of workers ≥ 1, any capacity ≥ 1, EVERY interleaving: conservation (processed ++ queued ++ "
+             "todo is a permutation of the items), exactly_once, no_deadlock, step_decreases (termination), done_stays; merging_tree/merging_some/merging_assoc (pairwise rounds = a merge tree over "
+             "the workers' sketches in order, odd counts included); records_total/ops_total/C08_hist (record counts and the multiset of operations equal the sequential stream's, so C01-C04 apply). "
+             "The run drives the REAL parallel_add code in-process over all small assignments and random valid protocol traces and compares results with sequential processing and the model.",
+        tech="Lean 4 proof (protocol invariant over all interleavings, merge-tree characterisation) + exhaustive small-schedule correspondence on the real worker/merge code",
+        note=TB + " NOT PROVED (runtime): OS scheduling, spawn/pickling, shared-memory coherence, the multiprocessing queue's FIFO/exactly-once contract (assumed).",
+        ref="§4 C08"),
+    "C19": dict(
+        text="PARTIAL (runtime modelled). Proved: records_only_successful and C19_callback (the protocol, hence termination and exactly-once, does not depend on callback outcomes; n_records counts "
+             "only successful items; every item's — possibly partial — operations are in exactly one worker's sketch), C19_dead/monitor_ends/monitor_clean (a non-zero exit code in any snapshot the "
+             "monitor sees closes the queues, so the outcome is an exception; all-zero ends clean). The run enumerates every subset of raising items, kills a worker on its k-th item and scripts "
+             "exit-code snapshots against the real parallel_add code in-process.",
+        tech="Lean 4 proof (decision logic of worker loop and exit-code monitor) + fault enumeration on the real code under a synchronous context",
+        note=TB + " NOT PROVED (runtime): real process death/signals; that a closed multiprocessing queue raises on put (observed, modelled).",
+        ref="§4 C19"),
+})
+
 NOT_YET = {}
 
 
